@@ -70,6 +70,9 @@ def targets(T: str) -> dict[str, tuple[dict[str, str], str, str, str]]:  # noqa:
     t["reexp_public_module_shorter"] = ({f"sp{T}/__init__.py": "", f"sp{T}/b{T}.py": c, "__init__.py": f"from .sp{T}.b{T} import {B}\n"}, f"from {PKG}.u{T}.sp{T}.b{T} import {B}\n", B, f"a{T}.py")
     t["reexp_by_other_pkg_longer_name"] = ({f"io{T}/__init__.py": "", f"io{T}/_b{T}.py": c, f"public_interface_with_long_name{T}/__init__.py": f"from {PKG}.u{T}.io{T}._b{T} import {B}\n", f"public_interface_with_long_name{T}/x{T}.py": f"def xf{T}() -> int:\n    return 1\n"}, f"from {PKG}.u{T}.io{T}._b{T} import {B}\n", B, f"a{T}.py")
     t["reexp_by_other_pkg_alias"] = ({f"io{T}/__init__.py": "", f"io{T}/_b{T}.py": c, f"facade{T}/__init__.py": f"from {PKG}.u{T}.io{T}._b{T} import {B}\n", f"facade{T}/x{T}.py": f"def xf{T}() -> int:\n    return 1\n"}, f"from {PKG}.u{T}.facade{T} import {B}\n", B, f"a{T}.py")
+    chain = {f"cp{T}/__init__.py": f"from ._b{T} import {B}\n", f"cp{T}/_b{T}.py": c, "__init__.py": f"from .cp{T} import {B}\n"}
+    t["reexp_chain_via_pkg"] = (chain, f"from {PKG}.u{T} import {B}\n", B, f"a{T}.py")
+    t["reexp_chain_via_sub"] = (chain, f"from {PKG}.u{T}.cp{T} import {B}\n", B, f"a{T}.py")
     t["private_not_reexported"] = ({f"_b{T}.py": c}, f"from ._b{T} import {B}\n", B, f"a{T}.py")
     t["private_class"] = ({f"b{T}.py": CLS.format(n="_" + B, T=T)}, f"from .b{T} import _{B}\n", f"_{B}", f"a{T}.py")
     t["nested_other_module"] = ({f"b{T}.py": f"class O{T}:\n    class I{T}:\n        def m{T}(self) -> int:\n            return 1\n"}, f"from .b{T} import O{T}\n", f"O{T}.I{T}", f"a{T}.py")
